@@ -128,6 +128,15 @@ def run_case(c, base, tier):
       missing = [t for t in c['tables'] if t not in tabs]
       if missing:
         return n, 'after running %s the attached file has no table %s (tables: %s)' % (preds, missing, sorted(tabs))
+  # once more in this process, after the readers have been compiled here: asking for the grounded predicate itself,
+  # against a second (fresh) file, still writes nothing
+  path2 = os.path.join(base, c['name'] + '_second.db')
+  rows, pre = script_run(E + c['text'].replace('FILE', path2), c['asks_itself'])
+  n += 1
+  tabs2 = file_tables(path2)
+  if own and own[0] in tabs2:
+    return n, 'asking for %s itself, after its readers were compiled in the same process, wrote table %s' % (
+        c['asks_itself'], own[0])
   return n, None
 
 
